@@ -123,6 +123,17 @@ def check_history(prog, hist):
     except Exception as exc:  # noqa
         c = classify_exception(exc)
         if c[0] == "error":
+            # attribution: if a fresh grounding of exactly the queries/evidence of this history raises
+            # the same error, the history is not to blame (C01/C02 case)
+            qs, ev = candidates(prog)
+            gq = [qs[op[1]] for op in hist if op[0] == "q"]
+            ge = [[ev[op[1]], op[2], "pair"] for op in hist if op[0] == "e"]
+            if gq or ge:
+                from ..plrun import infer
+
+                fresh = infer(program_text(dict(prog, queries=gq, evidence=ge)))
+                if fresh[0] == "error" and fresh[1] == c[1]:
+                    return ("excluded-fresh-grounding-raises", c[1], tuple(map(tuple, hist))), None
             return None, ("error-in-history:" + c[1], "a ProbLog error was raised while replaying %r" % (hist,))
         return None, ("crash:%s@%s" % (c[1], c[2]), "internal exception while replaying %r" % (hist,))
 
@@ -139,7 +150,7 @@ class C08(Prop):
             "states merged on (text of the target formula, grounded queries, grounded evidence); non-trivial = state with "
             ">= 2 grounded items")
     assumptions = ["programs whose fresh grounding of the same queries/evidence is itself wrong are excluded (C01 cases)"]
-    families = {"quick": [("F3.2", 96), ("F2.3", 48), ("F1.3s", 48), ("F3.1", 16), ("F2.2", 8), ("F1.1", 4)],
+    families = {"quick": [("F2.3", 96), ("F3.1", 32), ("F2.2", 8), ("F1.1", 4)],
                 "thorough": [("F3.3", 512), ("F2.4", 256), ("F3.2", 96), ("F2.3", 48), ("F1.3s", 48), ("F1.2q", 128),
                              ("F3.1", 16), ("F2.2", 8), ("F1.1", 4)]}
     budget = {"quick": 400, "thorough": 2700}
